@@ -82,6 +82,60 @@ pub fn gen_cancel_case(rng: &mut Rng) -> Vec<String> {
     lines
 }
 
+/// C13: several solves on one solver (same or different problems, optionally with a transient
+/// cancellation somewhere in the history so that later solves run after a Cancelled outcome).
+pub fn gen_reuse_case(rng: &mut Rng, async_mode: bool) -> Vec<String> {
+    let kind = *rng.pick(&[Kind::General, Kind::Tight, Kind::Hints, Kind::Soft, Kind::Lazy]);
+    let g = gen::generate(rng, kind);
+    let mut lines = g.u.to_lines();
+    let vss: Vec<u32> = g.u.vsets.keys().copied().collect();
+    let unions: Vec<u32> = g.u.unions.keys().copied().collect();
+    let solvs: Vec<u32> = g.u.solvs.keys().copied().collect();
+    let mut probs = vec![g.p.clone()];
+    for _ in 0..rng.range(1, 3) {
+        if rng.chance(1, 3) { probs.push(probs[rng.below(probs.len() as u64) as usize].clone()); continue; }
+        let mut p = Problem::default();
+        for _ in 0..rng.range(1, 3) {
+            if !unions.is_empty() && rng.chance(1, 6) { p.reqs.push(Req::Union(*rng.pick(&unions))); } else { p.reqs.push(Req::Single(*rng.pick(&vss))); }
+        }
+        if rng.chance(1, 5) { p.cons.push(*rng.pick(&vss)); }
+        if rng.chance(1, 3) { for _ in 0..rng.range(1, 2) { p.soft.push(*rng.pick(&solvs)); } }
+        probs.push(p);
+    }
+    for p in &probs { lines.push(p.to_line()); }
+    let mut cfg = Config { render: false, ..Config::default() };
+    if async_mode {
+        cfg.mode = "async".into();
+        cfg.sched = match rng.below(3) { 0 => "fifo".into(), 1 => "lifo".into(), _ => format!("rand:{}", rng.below(1 << 30)) };
+        cfg.gate_fs = rng.chance(1, 3);
+    }
+    if rng.chance(1, 2) {
+        // measure the whole uncancelled history, then put a transient signal somewhere in it
+        let mut probe = lines.clone();
+        probe.push(cfg.to_line());
+        let out = run_case(&probe);
+        let polls: usize = out.iter().find_map(|l| l.strip_prefix("polls ").and_then(|x| x.parse().ok())).unwrap_or(1);
+        let calls: usize = out.iter().filter(|l| l.starts_with("calls")).map(|l| l.split(' ').filter(|w| (w.starts_with('c') && *w != "calls") || w.starts_with('d')).count()).sum();
+        cfg.transient = true;
+        if calls > 0 && rng.chance(1, 2) { cfg.cancel_call = Some(rng.below(calls as u64) as usize); } else { cfg.cancel = Some(rng.below(polls as u64) as usize); }
+    }
+    lines.push(cfg.to_line());
+    lines
+}
+
+/// C10/C11: one solve with an asynchronous provider and a manual single-threaded executor.
+pub fn gen_async_case(rng: &mut Rng) -> Vec<String> {
+    let kind = *rng.pick(&[Kind::General, Kind::Tight, Kind::Hints, Kind::Soft, Kind::Lazy, Kind::ConflictFree]);
+    let g = gen::generate(rng, kind);
+    let mut lines = g.u.to_lines();
+    lines.push(g.p.to_line());
+    let mut cfg = Config { render: false, mode: "async".into(), ..Config::default() };
+    cfg.sched = match rng.below(4) { 0 => "fifo".into(), 1 => "lifo".into(), _ => format!("rand:{}", rng.below(1 << 30)) };
+    cfg.gate_fs = rng.chance(1, 3);
+    lines.push(cfg.to_line());
+    lines
+}
+
 fn hex(s: &str) -> String { s.bytes().map(|b| format!("{b:02x}")).collect() }
 
 fn panic_line(e: Box<dyn std::any::Any + Send>) -> String {
@@ -198,6 +252,8 @@ pub fn run_case(lines: &[String]) -> Vec<String> {
             solve_once(&mut solver, p, cfg.render, &mut out);
             for e in gates.events.borrow()[ev_start..].iter() { out.push(format!("ev {e}")); }
             out.push(format!("open-after {}", gates.open().len()));
+            // requests still outstanding when the solve ended were abandoned with the solve's futures
+            for g in gates.gates.borrow_mut().iter_mut() { if !g.done { g.done = true; g.waker = None; } }
         }
         out.push(format!("polls {}", solver.provider().polls.get()));
     } else {
